@@ -63,7 +63,4 @@ void _ZdlPv(void *p){ __vf_free(p); }
 void _ZdaPv(void *p){ __vf_free(p); }
 void _ZdlPvm(void *p, uint64_t n){ __vf_free(p); }
 uint32_t __vf_atexit(void *f){ return 0; }   /* destructors of statics at process exit are outside every claim */
-void __vf_global_ctors(void);
-void harness(void);
-int main(void){ __vf_global_ctors(); harness(); return 0; }
 void *__vf_memcpy_loop(void *d, const void *s, size_t n){ for (size_t i = 0; i < n; i++) ((char*)d)[i] = ((const char*)s)[i]; return d; }
